@@ -237,7 +237,7 @@ func init() {
 		ID: "C05", Level: "fault_enumeration",
 		Rule: "a seeded history of 10-20 write operations (inserts, point and bulk updates/deletes with and without sort, index and collection create/drop, ImportCollection, CreateCollectionByQuery, failing batches) is replayed by a CHILD PROCESS that writes a begin mark before and an acknowledgement after every operation; the child is killed (SIGKILL) either by its own store monitor at store call k of operation j - k drawn from 1..calls(j)+1, i.e. every point between two store calls including just before Commit and just after it returned - or by the parent a seeded 0-3000 us after the begin mark on the unmonitored clover.Open path, or by `strace -e inject=pwrite64:signal=SIGKILL:when=N` at the entry of the N-th page write of a thread, i.e. inside bbolt's commit; after every kill the parent reopens the directory and runs the full state-rebuild audit (catalog, documents, Count, every index, raw keys) against the acknowledged state, then against acknowledged + in-flight; anything else is a violation; the child is restarted on the rest of the history (up to 14 / 30 kills per history). A second engine closes and reopens after EVERY prefix of a history in-process and audits. A third engine runs the child on the default bbolt path under strace and checks offline over the syscall log that after the last pwrite64 of every acknowledged operation an fdatasync/fsync completed before the acknowledgement was written (durability ordering - what a kill cannot show). evaluations = reopen+audit rounds; a cell is <in-flight operation kind|phase before-first-write/between-writes/before-commit/after-commit-before-ack/timed|adopted state|backend> or <reopen|operation kind|backend>.",
 		Assumptions: []string{"a killed process keeps the page cache: power loss and torn sectors are not produced by this check", "badger runs with its default SyncWrites=false"},
-		Uses: []core.Use{{E: eCrash, Quick: 60, Thorough: 2000}, {E: eReopen, Quick: 60, Thorough: 1500}, {E: &core.Engine{Name: "fsync-order", Run: RunFsyncOrder}, Quick: 12, Thorough: 400}},
+		Uses: []core.Use{{E: eCrash, Quick: 60, Thorough: 2000}, {E: eReopen, Quick: 60, Thorough: 1500}, {E: &core.Engine{Name: "fsync-order", Run: RunFsyncOrder}, Quick: 12, Thorough: 400}, {E: &core.Engine{Name: "crash-artifacts", Run: RunCrashArtifacts}, Quick: 10, Thorough: 200}},
 	})
 
 	// concurrent variants of sequentially stated clauses: a few concurrent histories in the checks whose statement they can break
